@@ -18,6 +18,9 @@ CHECKS["C10"] = dict(level="exploration", technique="TLA+ TypeLang operators (Sh
 CHECKS["C18"] = dict(level="exploration", technique="TLA+ Subst/Shape operators; TLC enumerates types over mapped source names; real CLI run with and without the mapping table; differential trace validation by TLC",
     text="TLC enumerates type expressions over the source names of a type_mappings table (plain, generic, and one that is also a project struct) under up to 2 contexts together with their substituted twins (TypeLang!Subst); both are generated at every site in both modes; TLC checks that T[N] under the mapping denotes what T[M] denotes, that mapped names are neither declared nor referenced, and that unmapped types are AST-identical with and without the table.",
     note="Targets limited to string/number/boolean as the property states. Trusted: TS parser, TLC.", ref="6 (C18)")
+CHECKS["C08"] = dict(level="model_checking", technique="TLA+ Pipeline phase machine (as-built knobs vs contract invariants) model-checked by TLC; TLC-enumerated edit/loss histories replayed on the real CLI and build driver under strace; traces validated by TLC (Trace_Pipeline)",
+    text="TLC checks the contract invariants (success => every expected file present and current; never vouch for stale files) on the Pipeline model for every interleaving of <=2 environment steps, 3 runs, 1 fault, both drivers, with intended and as-built knobs; the histories TLC enumerates from the as-built model (26 output-affecting edit classes, loss of each generated file, events/commands/visualisation toggles) are executed on the real binary and the real BuildSystem driver and each run is judged by the trace specification against a differential oracle.",
+    note="Bounded histories (<=1 env step exhaustively + sample quick; <=2 thorough). Oracle = forced run of the same binary. As-built drift is reported in the evidence. Trusted: strace, TLC.", ref="6 (C08)")
 NOT_YET = {}
 def main():
     props = [json.loads(l) for l in open(os.path.join(VERIF, "properties.jsonl"))]
